@@ -1,6 +1,7 @@
 (* c11_driver.ml — runs the extracted C11 model on the tables that the C++ compiler dumped.
      c11_driver <tables> <inputs> <fuel>
    <tables>: blocks  "TABLE gid root" / "NODE ..." (the NODE lines of harness/vharness.hpp, ids renumbered 0..n-1 per grammar)
+                     / "ORIG newid id-in-the-shared-table"
    <inputs>: lines   "gid hex hex ..."   ("-" = empty input)
    prints per grammar
      MTOT gid <problems table>                                   (C11_model.problems: every entry as a root)
@@ -63,6 +64,23 @@ let parse_head toks =
   | "apply" :: l -> HApply (nats l) | "apply0" :: l -> HApply0 (nats l) | "if_apply" :: l -> HIfApply (nats l)
   | _ -> failwith ("untranslatable head: " ^ String.concat " " toks)
 
+(* deterministic behaviours of the observer actions, mirrored from harness/vharness.hpp (rule ids there are those of
+   the translation unit's shared table: ORIG lines) *)
+let veto_pred r b e = ((r * 7 + b * 3 + e * 5) mod 4) <> 0
+let veto0_pred r = (r mod 3) <> 0
+let throw_pred r b e = ((r * 5 + b * 7 + e * 3) mod 5) = 0
+let ipred b e = ((b * 3 + e * 5) mod 3) <> 0
+let ithrow b e = ((b + e) mod 4) = 3
+type beh = BNone | BApplyVoid | BApply0Void | BApplyBool | BApply0Bool | BThrowStd | BThrowForeign
+let fam_default fam named =
+  match fam with
+  | 0 -> BNone | 1 -> BApplyVoid | 2 -> BApply0Void | 3 -> BApplyBool | 4 -> BApply0Bool | 5 -> BThrowStd | 6 -> BThrowForeign
+  | 7 -> if named then BApplyVoid else BNone
+  | 8 -> if named then BApplyBool else BNone
+  | _ -> BNone
+let rec int_of_pos = function XH -> 1 | XO p -> 2 * int_of_pos p | XI p -> 2 * int_of_pos p + 1
+let int_of_n = function N0 -> 0 | Npos p -> int_of_pos p
+
 let kind_int = function KAny -> 0 | KOpt -> 1 | KSeq -> 2 | KSor -> 3
 
 let () =
@@ -76,12 +94,33 @@ let () =
     | [] -> ()
   done with End_of_file -> ());
   close_in ic;
-  let cfg = { ceol = EolLfCrlf; acts = (fun _ _ -> AKNone); abeh = (fun _ _ _ _ -> ARet true); ibeh = (fun _ _ _ -> ARet true);
-              has_unwind = (fun _ -> false); raise_on_failure = (fun _ _ -> false) } in
   let d = { dA = true; dM = true; dAct = O; dCtl = O; dDepth = O } in
   let p0 = { pbyte = N0; pline = n_of_int 1; pcol = n_of_int 1 } in
-  let finish gid root nodes =
+  let finish gid root nodes named orig =
     let n = Hashtbl.length nodes in
+    let beh fam r = fam_default fam (try Hashtbl.find named r with Not_found -> false) in
+    let og r = try Hashtbl.find orig r with Not_found -> r in
+    let ib p = int_of_n p.pbyte in
+    let cfg = { ceol = EolLfCrlf;
+                acts = (fun fam r -> match beh (int_of_nat fam) (int_of_nat r) with
+                    | BNone -> AKNone | BApplyVoid | BThrowStd | BThrowForeign -> AKApply false | BApply0Void -> AKApply0 false
+                    | BApplyBool -> AKApply true | BApply0Bool -> AKApply0 true);
+                abeh = (fun fam r b e ->
+                    let r = int_of_nat r in
+                    match beh (int_of_nat fam) r with
+                    | BApplyBool -> ARet (veto_pred (og r) (ib b) (ib e))
+                    | BApply0Bool -> ARet (veto0_pred (og r))
+                    | BThrowStd -> if throw_pred (og r) (ib b) (ib e) then AThrow N0 else ARet true
+                    | BThrowForeign -> if throw_pred (og r) (ib b) (ib e) then AThrow (n_of_int 1) else ARet true
+                    | _ -> ARet true);
+                ibeh = (fun a b e ->
+                    match int_of_nat a with
+                    | 1 -> ARet (ipred (ib b) (ib e))
+                    | 2 -> if ithrow (ib b) (ib e) then AThrow N0 else ARet true
+                    | 12 -> ARet false
+                    | 13 -> AThrow N0
+                    | _ -> ARet true);
+                has_unwind = (fun _ -> false); raise_on_failure = (fun _ _ -> false) } in
     let g = List.init n (fun i -> try Hashtbl.find nodes i with Not_found -> failwith ("missing node " ^ string_of_int i)) in
     Printf.printf "MTOT %s %d\n" gid (int_of_nat (problems g));
     List.iter (fun a ->
@@ -102,24 +141,29 @@ let () =
     Printf.printf "MRUN %s %s\n" gid (Buffer.contents buf) in
   let ic = open_in tables in
   let cur = ref None in
-  let flush () = match !cur with Some (gid, root, nodes) -> finish gid root nodes; cur := None | None -> () in
+  let flush () = match !cur with Some (gid, root, nodes, named, orig) -> finish gid root nodes named orig; cur := None | None -> () in
   (try while true do
     let l = input_line ic in
     if String.length l > 6 && String.sub l 0 6 = "TABLE " then begin
       flush ();
       match split_ws l with
-      | [_; gid; root] -> cur := Some (gid, int_of_string root, Hashtbl.create 50)
+      | [_; gid; root] -> cur := Some (gid, int_of_string root, Hashtbl.create 50, Hashtbl.create 50, Hashtbl.create 50)
       | _ -> failwith "bad TABLE"
     end else if String.length l > 5 && String.sub l 0 5 = "NODE " then begin
       let body = String.sub l 5 (String.length l - 5) in
       match String.index_opt body '|', !cur with
-      | Some k, Some (_, _, nodes) ->
+      | Some k, Some (_, _, nodes, named, _) ->
         let a = String.sub body 0 k and h = String.sub body (k + 1) (String.length body - k - 1) in
         (match split_ws a with
-         | id :: en :: _nm :: _n :: subs ->
+         | id :: en :: nm :: _n :: subs ->
+           Hashtbl.replace named (int_of_string id) (nm = "1");
            Hashtbl.replace nodes (int_of_string id) { nhead = parse_head (split_ws h); nsubs = nats subs; nenabled = (en = "1") }
          | _ -> failwith "bad node")
       | _ -> failwith "bad node line"
+    end else if String.length l > 5 && String.sub l 0 5 = "ORIG " then begin
+      match split_ws l, !cur with
+      | [_; a; b], Some (_, _, _, _, orig) -> Hashtbl.replace orig (int_of_string a) (int_of_string b)
+      | _ -> failwith "bad ORIG"
     end
   done with End_of_file -> ());
   close_in ic;
